@@ -33,7 +33,7 @@ var lexFragments = []string{
 
 func genLexCmd(in *bufio.Scanner, out *bufio.Writer, args []string) error {
 	fs := flag.NewFlagSet("genlex", flag.ContinueOnError)
-	mode := fs.String("mode", "exhaustive", "exhaustive | random | corpus | big | boundary | idents | lengths")
+	mode := fs.String("mode", "exhaustive", "exhaustive | random | corpus | big | boundary | idents | lengths | bodies")
 	maxLen := fs.Int("len", 3, "exhaustive: maximum length")
 	n := fs.Int("n", 1000, "random: number of cases")
 	seed := fs.Uint64("seed", 1, "random seed")
@@ -124,6 +124,20 @@ func genLexCmd(in *bufio.Scanner, out *bufio.Writer, args []string) error {
 						fmt.Fprintln(out, hx([]byte(strings.Repeat(l, n)+pre+" ")))
 					}
 				}
+			}
+		}
+	case "bodies":
+		// every quoted / comment context with awkward bodies (line breaks, multi-byte text on the last line, the
+		// context's own delimiters and statement separators inside), followed by more tokens on the same line
+		ctxs := []struct{ open, close string }{{"'", "'"}, {"\"", "\""}, {"`", "`"}, {"$$", "$$"}, {"$t$", "$t$"}, {"$doc$", "$doc$"}, {"/*", "*/"}, {"/* /*", "*/ */"},
+			{"-- ", "\n"}, {"# ", "\n"}, {"{", "}"}, {"x'", "'"}, {"‘", "’"}, {"“", "”"}, {"", ""}}
+		bodies := []string{"", "a", "\n", "a\nb", "é", "a\nб", "вторая строка", "first line\nвторая строка", "日本\n語", "\r\n", "a\r\nb", ";", "a;\nb;\n", ";\n", "a;b", "$", "$x", "a$b$c",
+			"tmp/*/2024", "/*", "*/", "*", "/", "--", "#", "'", "''", "\\'", "\"", "\\\"", "`", "``", "\\`", "\\", "\\\\", "\\n", "\\x41", "\\x", "\x00", "\xff", "\t", "{", "}", "{p:UInt8}", "0x1f", "1e5"}
+		for _, c := range ctxs {
+			for _, b := range bodies {
+				fmt.Fprintln(out, hx([]byte(c.open+b+c.close)))
+				fmt.Fprintln(out, hx([]byte("SELECT "+c.open+b+c.close+" AS a, b FROM t; SELECT 2")))
+				fmt.Fprintln(out, hx([]byte("x "+c.open+b)))
 			}
 		}
 	case "lengths":
